@@ -10,7 +10,7 @@
 From Coq Require Import Relations.
 From Relay Require Import Base.Prelude Model.LockIR Proofs.LockIR_proofs Gen.LockGen.
 From Relay Require Model.SerialEq Proofs.SerialEq_proofs.
-From Relay Require Import Model.Reduction Proofs.Reduction_proofs.
+From Relay Require Import Model.Reduction Proofs.Reduction_proofs Model.Reduction2 Proofs.Reduction2_proofs.
 
 (* ------------------------------------------------------------------ part 1: generic *)
 Section Generic.
@@ -321,8 +321,8 @@ Proof. vm_compute. reflexivity. Qed.
    What this closes: hypothesis (H1)+(H2) of part 4 is no longer a modelling step - the fine-grained executions of
    the IR bodies of the exported store methods ARE (up to the configuration reached whenever nobody holds a lock)
    executions of the operation-level model.
-   What remains outside: (a) threads with NESTED sections (Frames.mu inside Hub.mu: GetStats, the status handler,
-   statsReporter): a pool containing such a thread is not covered by the theorem; (b) the atomic model here is relational and carries
+   What remains outside THIS theorem: (a) threads with NESTED sections (Frames.mu inside Hub.mu: GetStats, the status
+   handler, statsReporter) - they are covered by part 7 (block-atomic reduction for arbitrary nesting); (b) the atomic model here is relational and carries
    thread-local state, part 4's [SerialEq] has a functional upd without local state - that the former instantiates
    to the latter for deterministic bodies is not formalised; (c) as before, the meaning of Rd/Wr ([rd], [wr]) is
    arbitrary here: the real bodies' effect is the C02/C10/C08 models'. *)
@@ -419,15 +419,10 @@ Example C12_reduction_witness :
 Proof. exact reduction_witness. Qed.
 
 (* ------------------------------------------------------------------ part 6: movers, for pools with NESTED sections *)
-(* FULL STATEMENT aimed at (NOT proved): the reduction of part 5 for ANY well-locked pool, nested sections included
-   (Frames.mu inside Hub.mu: Hub.GetStats, the status handler, statsReporter). Note that such an outer section is
-   NOT one atomic operation in any case: between two inner sections another thread may update the statistics of a
-   client not yet read, so a status report is a sequence of atomic per-client reads under a frozen membership, not a
-   snapshot; the right target is "every maximal run of a thread's steps between two of its lock operations is
-   atomic", by Lipton's argument: accesses and control steps are both-movers, Acq a right-mover, Rel a left-mover.
-   PROVED (this theorem): the both-mover half, for every configuration reachable from well-locked code whatever the
-   nesting - a step that is neither Acq nor Rel commutes with the following step of any other thread, same final
-   configuration. MISSING: "Acq moves right", "Rel moves left", and the assembly of the permutation. *)
+(* The both-mover fact of Lipton's argument, for every configuration reachable from well-locked code whatever the
+   nesting: a step that is neither Acq nor Rel commutes with the following step of any other thread, same final
+   configuration. (The assembled reduction for arbitrary nesting is part 7; it is proved by simulation and does not
+   go through the mover lemmas - "Acq moves right" / "Rel moves left" are implicit in its commit-at-release.) *)
 Section MoversGeneric.
   Context {L F Ob Lo : Type}.
   Variable leqb : L -> L -> bool.
@@ -436,7 +431,7 @@ Section MoversGeneric.
   Variable rd : F -> Lo -> Ob -> Lo.
   Variable wr : F -> Lo -> Ob -> Lo * Ob.
 
-  Theorem C12_nested_reduction_movers_partial :
+  Theorem C12_non_lock_steps_are_both_movers :
     forall c i c1 j c2, wl leqb guard c -> i <> j -> quiet c i ->
     vstep leqb guard rd wr c i c1 -> vstep leqb guard rd wr c1 j c2 ->
     exists c1' c2', vstep leqb guard rd wr c j c1' /\ vstep leqb guard rd wr c1' i c2' /\ same c2' c2.
@@ -448,13 +443,80 @@ Section MoversGeneric.
     initial leqb guard rank nb ord (erase (thrs c0)) -> vsteps leqb guard rd wr c0 c -> wl leqb guard c.
   Proof. exact (wl_reachable leqb leqb_spec guard rd wr). Qed.
 End MoversGeneric.
-Print Assumptions C12_nested_reduction_movers_partial.
+Print Assumptions C12_non_lock_steps_are_both_movers.
 Print Assumptions C12_discipline_reachable.
 
 Example C12_movers_witness :
   wl Nat.eqb (fun f => f) mv_c /\ quiet mv_c 0 /\
   exists c1 c2, vstep Nat.eqb (fun f => f) w_rd w_wr mv_c 0 c1 /\ vstep Nat.eqb (fun f => f) w_rd w_wr c1 1 c2.
 Proof. exact movers_witness. Qed.
+
+(* ------------------------------------------------------------------ part 7: the reduction for ARBITRARY nesting *)
+(* An outer section that contains inner ones (Frames.mu inside Hub.mu: Hub.GetStats, the status handler,
+   statsReporter) is NOT one atomic operation: between two inner sections another thread may update a client not yet
+   read. What IS atomic, for any well-locked code, is every maximal run of a thread
+        (control | Acq | Rd | Wr)*  Rel
+   - right-movers and both-movers followed by one left-mover. [astep2] (Model/Reduction2.v) is the semantics in which
+   each such run is ONE step ([ABlock], enabled when the locks it ends up holding are available) and locks stay held
+   between two blocks of a thread. For un-nested sections a block is the whole section, as in part 5; a status report
+   is a sequence of atomic per-client blocks under a membership frozen by the outer shared lock.
+   Proved by the roll-back simulation of part 5 generalised to uncommitted runs that contain acquisitions: a thread is
+   rolled back to the state just after its last release; its next Rel commits everything since as one block - sound
+   because what it acquired it still holds at the commit, and the objects it touched were protected throughout.
+   Hypothesis: [initial] = every thread starts without locks on a body that the lockset checker of part 1 accepts -
+   i.e. gen_well_locked: ALL bodies of the regenerated program qualify (no separate nesting check is needed). *)
+Section Reduction2Generic.
+  Context {L F Ob Lo : Type}.
+  Variable leqb : L -> L -> bool.
+  Hypothesis leqb_spec : forall a b, leqb a b = true <-> a = b.
+  Variable guard : F -> L.
+  Variable rd : F -> Lo -> Ob -> Lo.
+  Variable wr : F -> Lo -> Ob -> Lo * Ob.
+
+  (* every configuration in which nobody holds a lock - in particular every final one - is reached, with the same
+     objects, thread-local states (results) and remaining code, by a block-atomic execution whose schedule is the
+     fine-grained one minus stutter steps (each block sits where its Rel was; every thread's own order is kept) *)
+  Theorem C12_reduction_any_nesting :
+    forall rank nb ord c0 sch c,
+    initial leqb guard rank nb ord (erase (thrs c0)) ->
+    vrun leqb guard rd wr c0 sch c -> quiescent c ->
+    exists sch' a, arun2 leqb guard rd wr c0 sch' a /\ sublist sch' sch /\
+                   thrs a = thrs c /\ forall m, objs a m = objs c m.
+  Proof. exact (reduction2 leqb leqb_spec guard rd wr). Qed.
+
+  (* one fine-grained step in a well-locked configuration is a stutter or exactly one block-atomic step *)
+  Theorem C12_reduction_any_nesting_step :
+    forall c a i c', wl leqb guard c -> sim2 leqb guard rd wr c a -> vstep leqb guard rd wr c i c' ->
+    exists a', (a' = a \/ astep2 leqb guard rd wr a i a') /\ sim2 leqb guard rd wr c' a'.
+  Proof. exact (sim2_step leqb leqb_spec guard rd wr). Qed.
+End Reduction2Generic.
+Print Assumptions C12_reduction_any_nesting.
+Print Assumptions C12_reduction_any_nesting_step.
+
+(* the relay: any number of goroutines, each running ANY body of the program regenerated from the source (all of
+   them: handlers, pumps, Hub.run, GetStats, statsReporter, store methods ...), on any objects, any schedule *)
+Definition all_bodies_count := Eval vm_compute in length LockGen.prog.
+Print all_bodies_count.
+
+Theorem C12_relay_all_bodies_reduce :
+  forall (Ob Lo : Type) (rd : oname -> Lo -> Ob -> Lo) (wr : oname -> Lo -> Ob -> Lo * Ob) c0 sch c,
+  runs_bodies LockGen.prog c0 ->
+  vrun oname_eqb guard_of rd wr c0 sch c -> quiescent c ->
+  exists sch' a, arun2 oname_eqb guard_of rd wr c0 sch' a /\ sublist sch' sch /\
+                 thrs a = thrs c /\ forall m, objs a m = objs c m.
+Proof.
+  exact (fun Ob Lo rd wr c0 sch c => prog_all_bodies_reduce rd wr LockGen.prog c0 sch c gen_well_locked).
+Qed.
+Print Assumptions C12_relay_all_bodies_reduce.
+
+(* non-vacuity: a thread with a shared section on lock 1 NESTED in a shared section on lock 0, and a second thread
+   that runs an exclusive section on lock 1 in the middle of the first one's outer section; well locked; the run
+   ends with the written value seen by the nested read *)
+Example C12_reduction_any_nesting_witness :
+  initial Nat.eqb (fun f => f) (fun m => m) false false (erase (thrs n_c0)) /\
+  exists sch c, vrun Nat.eqb (fun f => f) n_rd n_wr n_c0 sch c /\ quiescent c /\
+                objs c 1 = 15%N /\ thrs c = [([], 19%N, []); ([], 10%N, [])].
+Proof. exact reduction2_witness. Qed.
 
 (* ------------------------------------------------------------------ non-vacuity *)
 (* an injective instantiation exists; a well-locked two-function program has a concrete execution reaching a pool
